@@ -26,6 +26,7 @@ class DefaultArgsParser(ArgsParser):
         self, args, fmt, lenient=False
     ):  # type: (RawArgs, ArgsFormat, bool) -> Args
         self._arguments = OrderedDict()
+        self._options = OrderedDict()
 
         arguments = OrderedDict()
         command_names = OrderedDict()
